@@ -10,6 +10,7 @@ import Sgz.Model.Emul
 import Sgz.Model.Headers
 import Sgz.Model.Crop
 import Sgz.Model.Reblock
+import Sgz.Model.Irregular
 /-!
 Line-protocol driver over the executable model (`Sgz/Model`, Mathlib-free).  One request per line, one answer per
 line.  The Python harness sends the same request to the real implementation and diffs canonical answers.
@@ -347,6 +348,22 @@ def handleReblock (ws : List String) : String :=
     | none => "bad-op"
   | none => "bad-op"
 
+/-- `irr infer ID…` (distinct line numbers present → `min max step` or `err`), `irr pop V…` (stored inline-number array →
+populated grid slots in ordinal order) -/
+def handleIrr (ws : List String) : String :=
+  match ws with
+  | "infer" :: ids =>
+    match ids.mapM String.toInt? with
+    | some xs => match Irregular.inferRange xs with
+      | some (a, b, c) => s!"{a} {b} {c}"
+      | none => "err"
+    | none => "bad-op"
+  | "pop" :: vs =>
+    match vs.mapM String.toInt? with
+    | some xs => joinNat (Irregular.populated xs)
+    | none => "bad-op"
+  | _ => "bad-op"
+
 def handle (line : String) : String :=
   if line.startsWith "hist " then handleHist (line.drop 5).toString else
   if line.startsWith "hwtable " then handleHwTable (line.drop 8).toString else
@@ -361,6 +378,7 @@ def handle (line : String) : String :=
   | "emul" :: rest => handleEmul rest
   | "crop" :: rest => handleCrop rest
   | "reblock" :: rest => handleReblock rest
+  | "irr" :: rest => handleIrr rest
   | "hashfeed" :: rest => handleHashFeed rest
   | ["ping"] => "pong"
   | _ => "bad-op"
